@@ -247,7 +247,8 @@ impl<W: Clone + PartialEq + PartialOrd + SampleUniform + SubAssign<W> + Weight>
     /// is unlike [`Distribution::sample`], which panics in those cases.
     pub fn try_sample<R: Rng + ?Sized>(&self, rng: &mut R) -> Result<usize, Error> {
         let total_weight = self.subtotals.first().cloned().unwrap_or(W::ZERO);
-        if total_weight == W::ZERO {
+        // `!(total > 0)` rather than `total == 0`: float subtotals can end up slightly negative after updates
+        if !(total_weight > W::ZERO) {
             return Err(Error::InsufficientNonZero);
         }
         let mut target_weight = rng.random_range(W::ZERO..total_weight);
